@@ -67,6 +67,10 @@ CLAIMS['C14'] = dict(
    text="Theorems (Props/C14.v), each for all inputs: the Applesoft container (links = address of the following line for every load address and program below 64K, 00 00 end marker) and the Integer container (exact length bytes, 01 terminators) are walked back into the same lines; the escape codec shared by strings, REM and DATA is inverted by the tokenizer-side parser for every payload in every context (Applesoft and Integer, incl. literal backslash-x sequences, controls, high and lower-case negative bytes); the Merlin negative-ASCII/column-separator line encoding decodes to the same columns; the token tables regenerated from token_maps.rs on every run list the same bytes once each way (Applesoft exactly 128..234, Integer positive and never 01) and the constants the escape model uses are the ones in the source. Tie: escape/unescape/Merlin encode/decode outputs of the real functions must equal the extracted model on generated byte strings; every token stream the real tokenizers emit is re-assembled byte for byte by the model (so it lies in the image the theorems speak about) and its links close. PARTIAL: which statement becomes which token goes through the tree-sitter grammars (generated C), not modelled; that composition is covered by the implementation-side oracle only: verify_str -> tokenize -> detokenize -> verify_str -> tokenize over grammar-directed programs (all statements, spacing/case variants, escape-stress stream, boundary load addresses and line numbers), compared modulo the blanks after REM/DATA tokens.",
    technique="Coq proof (container structure, escape codec round trip, Merlin byte codec, generated token tables) + extracted-model correspondence + round-trip oracle over generated programs",
    design_ref='DESIGN.md section 5 C14')
+CLAIMS['C15'] = dict(
+   text="Theorems (Props/C15.v) over the opcode tables regenerated from opcodes.json and the mode maps of operations.rs on every run: for every opcode, processor, register-width setting, assembler variant that goes with it, origin and operand VALUE (unbounded statement; the assembler's choice is shown to depend on the value only through the number of bytes it needs, which reduces the proof to a finite sweep re-run on every check), the instruction the disassembler lists is assembled back to exactly the original bytes - hence never different bytes, and success for valid instructions; block moves and operand-less instructions likewise; rel_to_abs/abs_to_rel are inverse for every pc; the opcode map is a function (only jmp/jml, jsr/jsl share codes); the lines of a disassembly tile the input exactly for every byte string (try_data_run never reaches past the range). Tie: the real disassembly text must equal the model's decisions rendered as text on generated byte strings; single source lines (incl. operand shapes the disassembler never writes) assemble to the model's bytes or are refused alike. PARTIAL: the text between the two tools (hex formatting, labels, columns, tree-sitter parse, expression evaluation) and the contents of data pseudo-ops are not modelled; covered by the oracle on the real pipeline dasm -> analyze -> spot_assemble: all 256 opcodes x operand classes x origins (bank edges, branch limits) x 4 processors x MX x variants, data runs of every recognised pattern, LUP blocks checked through an independent expansion.",
+   technique="Coq proof (instruction round trip for all operand values via width-class sweep, relative conversion, tiling) over generated opcode tables + text/IR correspondence + real-pipeline oracle sweep",
+   design_ref='DESIGN.md section 5 C15')
 PLANNED = {f'C{i:02d}': 'check not built yet in this round (planned; see DESIGN.md section 10)' for i in range(1, 21)}
 
 def main():
